@@ -68,14 +68,14 @@ def header(rng, algs, iv=False, empty_ok=True):
 
 
 def recipient(rng, depth=0):
-    r = {"protected": rng.choice([{}, "", header(rng, KW_ALGS)]), "unprotected": header(rng, KW_ALGS), "ciphertext": rng.choice([None, hexs(rng, 24), hexs(rng, 1)])}
+    r = {"protected": rng.choice([{}, "", header(rng, KW_ALGS)]), "unprotected": header(rng, KW_ALGS), "ciphertext": rng.choice([None, hexs(rng, 24), hexs(rng, 1), ""])}
     if depth < 2 and rng.random() < 0.4:
         r["recipients"] = [recipient(rng, depth + 1) for _ in range(rng.randrange(1, 3))]
     return r
 
 
 def encryption_info(rng):
-    return {"CoseEncryptTagged": {"protected": header(rng, ENC_ALGS, empty_ok=False), "unprotected": header(rng, ENC_ALGS, iv=True), "ciphertext": rng.choice([None, hexs(rng, 5)]),
+    return {"CoseEncryptTagged": {"protected": header(rng, ENC_ALGS, empty_ok=False), "unprotected": header(rng, ENC_ALGS, iv=True), "ciphertext": rng.choice([None, hexs(rng, 5), ""]),
                                   "recipients": [recipient(rng) for _ in range(rng.randrange(0, 3))]}}
 
 
@@ -239,6 +239,21 @@ def systematic(seed=0):
             d = "suit-directive-override-parameters" if (i + rep) % 2 else "suit-directive-set-parameters"
             e["SUIT_Envelope_Tagged"]["suit-manifest"]["suit-install"] = [{d: {p: PARAMETER_MAKERS[p](rng)}}]
             out.append((f"parameter-{p}-{rep}", e))
+    # a text map with every text key and every component text key; every COSE algorithm / header key; invoke args; dependency prefix
+    e = envelope(rng, severed=["suit-text"], n_auth=0, members=[])
+    e["SUIT_Envelope_Tagged"]["suit-text"] = {"en": {**{R.name_of(c): "t%d" % i for i, c in enumerate(R.SPACES["text"])},
+                                                     '["M", 2]': {R.name_of(c): "c%d" % i for i, c in enumerate(R.SPACES["text_component"])}}}
+    out.append(("full-text-map", e))
+    for i, alg in enumerate(ENC_ALGS + KW_ALGS):
+        e = envelope(rng, severed=[], n_auth=0, members=[])
+        hdr = {"suit-cose-algorithm-id": alg, "suit-cose-key-id": 7, "suit-cose-iv": "00" * 12}
+        e["SUIT_Envelope_Tagged"]["suit-manifest"]["suit-install"] = [{"suit-directive-override-parameters": {"suit-parameter-encryption-info": {"CoseEncryptTagged": {
+            "protected": {"suit-cose-algorithm-id": ENC_ALGS[i % 3]}, "unprotected": hdr, "ciphertext": None,
+            "recipients": [{"protected": {"suit-cose-algorithm-id": alg}, "unprotected": {"suit-cose-key-id": "0a"}, "ciphertext": [None, "", "00ff"][i % 3]}]}},
+            "suit-parameter-invoke-args": {"suit-synchronous-invoke": True, "suit-timeout": 1}}}]
+        e["SUIT_Envelope_Tagged"]["suit-manifest"]["suit-common"]["suit-dependencies"] = {"0": {"suit-dependency-prefix": ["M"]}}
+        e["SUIT_Envelope_Tagged"]["suit-manifest"]["suit-common"]["suit-shared-sequence"] = [{"suit-condition-abort": []}]
+        out.append((f"cose-{alg}", e))
     # every version comparison name
     e = envelope(rng, severed=[], n_auth=0, members=[])
     e["SUIT_Envelope_Tagged"]["suit-manifest"]["suit-validate"] = [{"suit-directive-override-parameters": {"suit-parameter-version": {R.name_of(c): [1, i]}}} for i, c in enumerate(R.SPACES["version_comparison"])]
